@@ -493,6 +493,59 @@ theorem getAddr_ok (cfg : Cfg) (w : World) (g : Ghost) (n : Nat) (nid : String) 
         by_cases ha : a.addr = "" <;> simp [ha]
     · simp [hl]
 
+/-! ### Forwarding to the source node -/
+
+theorem fwd_ok (cfg : Cfg) (w : World) (g : Ghost) (n : Nat) (tid : String) (hI : InvS cfg.backend w g)
+    (hn : wfNode cfg.backend n = true) :
+    check cfg g (.fwd n tid) (forwardTarget cfg w n tid).2 = true ∧
+    InvS cfg.backend (forwardTarget cfg w n tid).1 g ∧
+    (forwardTarget cfg w n tid).1.bridges = w.bridges := by
+  obtain ⟨hl, hI', hb⟩ := look_ok cfg w g n tid hI hn
+  have hfst : (forwardTarget cfg w n tid).1 = (lookupWaitingTunnel cfg w n tid).1 := by
+    unfold forwardTarget; split <;> rfl
+  rw [hfst]
+  refine ⟨?_, hI', hb⟩
+  unfold forwardTarget
+  generalize lookupWaitingTunnel cfg w n tid = L at hl hI'
+  obtain ⟨w', res⟩ := L
+  simp only [check] at hl ⊢
+  cases hg : g.tunnels tid with
+  | none =>
+    rw [hg] at hl
+    cases res <;> simp_all [notResolved]
+  | some t =>
+    rw [hg] at hl
+    by_cases hlive : liveT cfg.backend g t = true
+    · simp only [hlive, if_true] at hl ⊢
+      cases res with
+      | found r =>
+        have hsrc : r.sourceNodeID = t.data.sourceNodeID := by
+          simp only [sameData, Bool.and_eq_true, beq_iff_eq] at hl
+          exact hl.1.1.1.1.1.2
+        have ha := getAddr_ok cfg w' g n r.sourceNodeID hI' hn
+        simp only [check, hsrc] at ha
+        simp only [hsrc]
+        cases hga : g.addrs t.data.sourceNodeID with
+        | none =>
+          rw [hga] at ha
+          simp only [beq_iff_eq] at ha
+          simp [ha]
+        | some a =>
+          rw [hga] at ha
+          by_cases hla : liveA cfg.backend g a = true
+          · simp only [hla, if_true] at ha
+            by_cases hae : a.addr = ""
+            · simp only [hae, bne_self_eq_false, Bool.false_eq_true, if_false, beq_iff_eq] at ha
+              simp [ha, hla, hae]
+            · have hne : (a.addr != "") = true := by simpa using hae
+              simp only [hne, if_true, beq_iff_eq] at ha
+              simp [ha, hla, hne]
+          · simp only [hla, Bool.false_eq_true, if_false, beq_iff_eq] at ha
+            simp [ha, hla]
+      | _ => simp at hl
+    · simp only [hlive, Bool.false_eq_true, if_false] at hl ⊢
+      cases res <;> simp_all [notResolved]
+
 /-! ### Clocks -/
 
 theorem RelT_mono (b : Backend) {wall wall' : Nat} (h : wall ≤ wall') (go : Option GT) (eo : Option Entry)
@@ -572,6 +625,10 @@ theorem step_ok (cfg : Cfg) (w : World) (g : Ghost) (e : Ev) (hI : Inv cfg.backe
   | getAddr n nid =>
     simp only [wfEv] at hwf
     exact ⟨getAddr_ok cfg w g n nid hS hwf, hS, hB⟩
+  | fwd n tid =>
+    simp only [wfEv] at hwf
+    obtain ⟨h1, h2, h3⟩ := fwd_ok cfg w g n tid hS hwf
+    exact ⟨h1, h2, by rw [show (step cfg w (.fwd n tid)).1 = (forwardTarget cfg w n tid).1 from rfl, h3]; exact hB⟩
 
 theorem Inv_init (b : Backend) : Inv b World.init Ghost.init :=
   ⟨⟨rfl, rfl, fun _ => trivial, fun _ => rfl, fun _ _ h => by simp [Ghost.init] at h, rfl⟩, rfl⟩
